@@ -50,12 +50,13 @@ type relayCase struct {
 	Raw       bool    `json:"raw_conn"`
 	V6Client  bool    `json:"client_over_ipv6"`
 	TailAfter int     `json:"bytes_after_peer_fin"`
-	SlowMs    int     `json:"slow_ms"` // both sides pause this long mid-stream (longer than the handshake timeout)
+	SlowRead  int     `json:"target_reads_late_ms"` // the target starts reading this long after accepting
+	SlowMs    int     `json:"slow_ms"`              // both sides pause this long mid-stream (longer than the handshake timeout)
 }
 
 func (rc relayCase) class() string {
 	return fmt.Sprintf("%s|addr=%d|up=%s|down=%s|chunks=%s|coalesce=%v|empty=%v|cut=%s|%s|tfirst=%v|raw=%v", rc.Key.Cipher, rc.AddrType,
-		sizeBucket(rc.UpLen), sizeBucket(rc.DownLen), sizeBucket(rc.Chunks[0]), rc.Coalesce, rc.EmptyChk, cutClass(rc.FirstCut), rc.Mode, rc.TgtFirst, rc.Raw) + fmt.Sprintf("|slow=%v", rc.SlowMs > 0)
+		sizeBucket(rc.UpLen), sizeBucket(rc.DownLen), sizeBucket(rc.Chunks[0]), rc.Coalesce, rc.EmptyChk, cutClass(rc.FirstCut), rc.Mode, rc.TgtFirst, rc.Raw) + fmt.Sprintf("|slow=%v|late-reader=%v", rc.SlowMs > 0, rc.SlowRead > 0)
 }
 
 func cutClass(n int) string {
@@ -136,6 +137,9 @@ func genRelayCase(r *rand.Rand, batch int, keys []KeySpec, big bool) relayCase {
 	rc.TailAfter = r.Intn(3000)
 	if r.Intn(16) == 0 {
 		rc.SlowMs = slowCaseMs
+	}
+	if r.Intn(8) == 0 {
+		rc.SlowRead = 100 + r.Intn(300)
 	}
 	return rc
 }
@@ -279,6 +283,10 @@ func runRelayCase(e *relayEnv, r *rand.Rand, rc relayCase) *relayOutcome {
 			}
 		}
 		readAll := func() {
+			if rc.SlowRead > 0 {
+				// the upload piles up in the socket buffers; everything must still arrive, followed by EOF
+				time.Sleep(time.Duration(rc.SlowRead) * time.Millisecond)
+			}
 			buf := make([]byte, 32768)
 			for {
 				tc.SetReadDeadline(time.Now().Add(relayB))
